@@ -33,7 +33,7 @@ class Reading(object):
     """Result of reading one command string."""
 
     __slots__ = ("text", "code", "sub", "letters", "values", "dup", "leftover", "valueless",
-                 "params", "exponent")
+                 "params", "exponent", "extraCode")
 
     def __init__(self, text):
         self.text = text
@@ -46,12 +46,13 @@ class Reading(object):
         self.valueless = []     # letters that appeared without a number
         self.params = ""        # raw text after the code, stripped
         self.exponent = False   # a number is directly followed by an exponent part (1e-05)
+        self.extraCode = False  # a second G / M word after the code ("G10 G10S1")
 
     @property
     def wellFormed(self):
         """One code, distinct letters each with a plain decimal number, nothing left over."""
         return (self.code is not None and not self.dup and not self.leftover
-                and not self.valueless and not self.exponent)
+                and not self.valueless and not self.exponent and not self.extraCode)
 
 
 def read(text):
@@ -79,6 +80,8 @@ def read(text):
             num = _NUM.match(text, pos)
             if letter in res.letters:
                 res.dup = True
+            if letter in "GM":
+                res.extraCode = True
             res.letters.append(letter)
             if num:
                 res.values[letter] = Fraction(num.group(0))
